@@ -152,6 +152,19 @@ def replay(rec, ctx):
     if not core.close([v2.x, v2.y, v2.z], list(exp), rtol=1e-9, atol=1e-9):
         bad("map_vector2d-differs", f"{v2} vs {exp}" + (" (one in-plane field component is zero)" if (pr == 0) != (pz == 0) else ""))
     v3 = eq.map_vector3d(tor, pol, nrm)(x, y, z)
+    # one mapped function with a non-zero value outside the LCFS, evaluated at three toroidal angles in turn:
+    # inside the prescribed components, outside the given (r, toroidal, z) vector, both rotated with the point's own angle
+    out_vec = (1.5, -2.0, 0.25)
+    f3 = eq.map_vector3d(tor, pol, nrm, value_outside_lcfs=Vector3D(*out_vec))
+    on_lcfs = rec["psin"][0] == rec["psin"][1]        # psi_n = 1 exactly: which side the blend takes is not specified
+    for (c2, s2, h2) in ([] if on_lcfs else (rec["angle"], [3, 4, 5], [-4, 3, 5])):
+        co2, si2 = c2 / h2, s2 / h2
+        w3 = f3(r * co2, r * si2, z)
+        base = exp if rec["inside"] else out_vec
+        e3 = (base[0] * co2 - base[1] * si2, base[0] * si2 + base[1] * co2, base[2])
+        if not core.close([w3.x, w3.y, w3.z], list(e3), rtol=1e-9, atol=1e-9):
+            bad("map_vector3d-with-outside-value-differs", f"{w3} vs {e3} at toroidal angle (cos, sin) = ({c2}/{h2}, {s2}/{h2})" + ("" if rec["inside"] else " (outside the LCFS)"))
+            break
     co, si = c / h, s / h
     exp3 = (exp[0] * co - exp[1] * si, exp[0] * si + exp[1] * co, exp[2])
     if not core.close([v3.x, v3.y, v3.z], list(exp3), rtol=1e-9, atol=1e-9):
